@@ -9,7 +9,7 @@ interface Named implements Node { id: ID! name: String }
 scalar Blob
 type User implements Named & Node { id: ID! name: String age: Int score: Float! active: Boolean role: Role
   friends(first: Int = 2, filter: Filter): [User] nnFriends: [User!]! best: User nnBest: User! pet: Pet any: SearchResult
-  matrix: [[Int!]] tags: [String!]! blob: Blob roles: [Role]
+  matrix: [[Int!]] tags: [String!]! blob: Blob roles: [Role] node: Node search: [SearchResult!]
   echo(i: Int, f: Float = 1.5, s: String = "d", b: Boolean, id: ID, e: Role = ADMIN, l: [Int!], ll: [[Int]], o: Filter, ni: Int! = 7, le: [Role] = [GUEST, null], pick: Pick): String }
 type Dog implements Named & Node { id: ID! name: String barks: Boolean owner: User echo(o: Filter = {req: true, min: 3}): String lives: String }
 type Cat implements Node { id: ID! lives: Int mice: [Int] name: Int barks: Boolean! owner: Dog }
